@@ -4,6 +4,7 @@ import sys
 
 from .. import gen, specs, guardlib
 from ..check import Stream, run_check
+from .c07 import BackendDecisionStream as _C07Stream
 from ..core import s_bool, s_exc
 from .c03 import e_fcase
 
@@ -193,9 +194,41 @@ ASSUME = ['str subclasses as elements are outside the universe',
           'non-string values under the fuzzy checker raise TypeError (stated by the model, outside the property)']
 
 
+class StringCheckersBehindStoragesStream(_C07Stream):
+    """what a user of the string checkers sees is the guard's answer: with every storage in front of the checker the
+    answer must still be the one the checker semantics gives (the storage's candidate pre-filter included)"""
+    name = 'string_checkers_behind_storages'
+    rule = ('exact / fuzzy checkers behind Memory, SQL on SQLite, Redis (client double) and the enfolding cache over '
+            'SQLite: the grid of values special for LIKE / quoting / regex (plain, embedded, delimiter-wrapped) and '
+            'generated stores; the model answers with the in-memory decision, the oracle requires every matching '
+            'policy among the storage\'s candidates. non-trivial as for C07')
+    CONFIGS = ('memory', 'sqlite', 'redis_json', 'enfold_sqlite', 'observable_sqlite')
+
+    def corpus(self):
+        return []
+
+    def generate(self, rng, tier):
+        seen = set()
+        for c in self.grid():
+            if c['checker'] in ('CExact', 'CFuzzy') and c['config'] in self.CONFIGS:
+                seen.add(self.key(c))
+                yield c
+        n = 200 if tier == 'quick' else 3000
+        inner = super().generate(rng, 'quick' if tier == 'quick' else 'thorough')
+        k = 0
+        for c in inner:
+            if c.get('checker') in ('CExact', 'CFuzzy') and c.get('config') in self.CONFIGS and \
+                    len(c['policies']) <= 40 and self.key(c) not in seen:
+                k += 1
+                yield c
+                if k >= n:
+                    return
+
+
 def main(argv):
-    return run_check('C06', [StringFitsStream(), CrossTypeStream()], argv, trusted_base=TRUSTED, assumptions=ASSUME,
-                     translated=('checker', 'parser', 'policy'))
+    return run_check('C06', [StringFitsStream(), CrossTypeStream(), StringCheckersBehindStoragesStream()], argv,
+                     trusted_base=TRUSTED, assumptions=ASSUME,
+                     translated=('checker', 'parser', 'policy', 'guard', 'sql', 'pin_sql'))
 
 
 if __name__ == '__main__':
